@@ -7,62 +7,18 @@
 #![allow(dead_code, deprecated, non_camel_case_types)]
 use ark_ec::{short_weierstrass as sw, twisted_edwards as te};
 use ark_ff::{Field, One, PrimeField, Zero};
-use ark_serialize::{CanonicalSerializeWithFlags, Compress, EmptyFlags, Validate};
+use ark_serialize::{Compress, EmptyFlags, Validate};
 use arkharness::serial_common::*;
 use arkharness::util::*;
 use arkharness::zoo::*;
 
 // ---------------------------------------------------------------- fields
-fn ser_fl<F: Field, Fl: NF>(x: &F, fl: Fl) -> Option<Vec<u8>> {
-    let mut b = Vec::new();
-    x.serialize_with_flags(&mut b, fl).ok().map(|_| b)
-}
-
-/// byte strings offered to `deserialize_with_flags::<Fl>`: valid encodings, top-byte sweeps,
-/// non-reduced integers, stray bits, random strings; exhaustive for sizes ≤ `exh`
-fn uniq_strings<F: Field, Fl: NF>(rng: &mut Rng, vals: &[F], exh: usize, sweeps: usize) -> Vec<Vec<u8>>
-where F::BasePrimeField: PrimeField {
-    let size = F::zero().serialized_size_with_flags::<Fl>();
-    if <Fl as ark_serialize::Flags>::BIT_SIZE > 8 { return vec![vec![0u8; size], vec![]]; }
-    if size <= exh { return all_strings(size); }
-    let k = F::extension_degree() as usize;
-    let s0 = F::BasePrimeField::zero().serialized_size_with_flags::<EmptyFlags>();
-    let sl = F::BasePrimeField::zero().serialized_size_with_flags::<Fl>();
-    assert_eq!(size, (k - 1) * s0 + sl);
-    let mut v: Vec<Vec<u8>> = Vec::new();
-    let fls = Fl::samples();
-    let mut valid: Vec<Vec<u8>> = Vec::new();
-    for (i, x) in vals.iter().enumerate() {
-        if let Some(b) = ser_fl(x, fls[i % fls.len()]) { valid.push(b); }
-    }
-    v.extend(valid.iter().take(12).cloned());
-    // top byte: every value (flag bits × stray bits × top integer bits)
-    for b in valid.iter().take(sweeps) { v.extend(sweep(b, size - 1)); }
-    // byte below the top one (where the top integer bits live when the flags spill into an extra byte)
-    if sl >= 2 { if let Some(b) = valid.get(1) { v.extend(sweep(b, size - 2)); } }
-    // coordinate edges at every coordinate position
-    let base = valid.get(2).cloned().unwrap_or(vec![0u8; size]);
-    for i in 0..k {
-        let len = if i + 1 == k { sl } else { s0 };
-        for e in coord_edges::<F::BasePrimeField>(len) {
-            let mut w = base.clone();
-            w[i * s0..i * s0 + len].copy_from_slice(&e);
-            v.push(w.clone());
-            // the same integer under every flag pattern of the sample
-            if i + 1 == k { for fl in &fls { let mut u = w.clone(); u[size - 1] |= fl.u8_bitmask(); v.push(u); } }
-        }
-    }
-    for _ in 0..10 { v.push(rand_bytes(rng, size)); }
-    v.extend(truncations(&base).into_iter().take(if size > 40 { 12 } else { size + 2 }));
-    dedup(v)
-}
-
 fn field_suite<F: Field>(out: &mut Out, rng: &mut Rng, fd: &str, vals: &[F], nfl: usize, exh: usize, sweeps: usize)
 where F::BasePrimeField: PrimeField {
     for x in vals { for (c, v) in MODES { op_frt(out, fd, x, c, v); } }
     macro_rules! with_flags { ($fl:ty) => {
         for x in vals.iter().take(nfl) { for fl in <$fl>::samples() { op_fflrt::<F, $fl>(out, fd, x, fl); } }
-        for b in uniq_strings::<F, $fl>(rng, vals, exh, sweeps) { op_funiq::<F, $fl>(out, fd, &b); }
+        for b in field_strings::<F, $fl>(rng, vals, exh, sweeps, false) { op_funiq::<F, $fl>(out, fd, &b); }
     }; }
     with_flags!(EmptyFlags);
     with_flags!(sw::SWFlags);
@@ -178,20 +134,33 @@ fn toy_te<P: te::TECurveConfig>(out: &mut Out, name: &str, order: u64, th: bool)
     let off: Vec<_> = pts.iter().cloned().take(if th { 400 } else { 24 }).collect();
     te_offcurve_ops::<P>(out, &fd, &off);
 }
-fn ship_sw<P: sw::SWCurveConfig>(out: &mut Out, rng: &mut Rng, th: bool) where P::BaseField: PrimeField {
+fn ship_sw<P: sw::SWCurveConfig>(out: &mut Out, rng: &mut Rng, n: usize) where P::BaseField: PrimeField {
     let fd = fdesc::<P::BaseField>("_");
-    let (sub, other) = sw_sample::<P>(rng, if th { 40 } else { 5 });
-    let lam = vec![P::BaseField::one(), rand_prime::<P::BaseField>(rng)];
-    sw_points_ops::<P>(out, &fd, &sub, &lam, true);
-    sw_points_ops::<P>(out, &fd, &other, &lam[1..], false);
+    let cd = sw_desc::<P>(&fd);
+    let (sub, other) = sw_sample::<P>(rng, n);
+    let lam = vec![rand_prime::<P::BaseField>(rng)];
+    sw_points_ops::<P>(out, &fd, &sub[..3], &lam, true);
+    // the rest: affine in all modes, projective (rescaled) in two
+    for a in sub[3..].iter().chain(other.iter()) {
+        for (c, v) in MODES { op_prt(out, &cd, a, c, v); }
+        let q = sw_rescale(&sw::Projective::<P>::from(*a), lam[0]);
+        op_prt(out, &cd, &q, Compress::Yes, Validate::Yes);
+        op_prt(out, &cd, &q, Compress::No, Validate::No);
+    }
     sw_offcurve_ops::<P>(out, &fd, &sub[..4]);
 }
-fn ship_te<P: te::TECurveConfig>(out: &mut Out, rng: &mut Rng, th: bool) where P::BaseField: PrimeField {
+fn ship_te<P: te::TECurveConfig>(out: &mut Out, rng: &mut Rng, n: usize) where P::BaseField: PrimeField {
     let fd = fdesc::<P::BaseField>("_");
-    let (sub, other) = te_sample::<P>(rng, if th { 40 } else { 5 });
-    let lam = vec![P::BaseField::one(), rand_prime::<P::BaseField>(rng)];
-    te_points_ops::<P>(out, &fd, &sub, &lam);
-    te_points_ops::<P>(out, &fd, &other, &lam[1..]);
+    let cd = te_desc::<P>(&fd);
+    let (sub, other) = te_sample::<P>(rng, n);
+    let lam = vec![rand_prime::<P::BaseField>(rng)];
+    te_points_ops::<P>(out, &fd, &sub[..3], &lam);
+    for a in sub[3..].iter().chain(other.iter()) {
+        for (c, v) in MODES { op_prt(out, &cd, a, c, v); }
+        let q = te_rescale(&te::Projective::<P>::from(*a), lam[0]);
+        op_prt(out, &cd, &q, Compress::Yes, Validate::Yes);
+        op_prt(out, &cd, &q, Compress::No, Validate::No);
+    }
     te_offcurve_ops::<P>(out, &fd, &sub[..4]);
 }
 
@@ -207,7 +176,7 @@ fn main() {
     if want("field") {
         // 0..7 spare bits in the top byte: bits % 8 = 2,3,3,4,7,0,1,1,5,7,0,0,7,6,0,7,0,0,7,7,5,…
         prime_field::<FDT3>(&mut out, &mut rng, th);
-        prime_field::<FDT5>(&mut out, &mut rng, th);
+        if th { prime_field::<FDT5>(&mut out, &mut rng, th); }
         prime_field::<FDT7>(&mut out, &mut rng, th);
         prime_field::<FDT13>(&mut out, &mut rng, th);
         prime_field::<FHT13>(&mut out, &mut rng, th);
@@ -218,28 +187,28 @@ fn main() {
         prime_field::<FDM61>(&mut out, &mut rng, th);
         prime_field::<FDP63>(&mut out, &mut rng, th);
         prime_field::<FDP64m59>(&mut out, &mut rng, th);
-        prime_field::<FHP64m59>(&mut out, &mut rng, th);
+        if th { prime_field::<FHP64m59>(&mut out, &mut rng, th); }
         prime_field::<FDGoldilocks>(&mut out, &mut rng, th);
         prime_field::<FDM127>(&mut out, &mut rng, th);
         prime_field::<FDP126>(&mut out, &mut rng, th);
         prime_field::<FDP128m159>(&mut out, &mut rng, th);
-        prime_field::<FDP191>(&mut out, &mut rng, th);
+        if th { prime_field::<FDP191>(&mut out, &mut rng, th); }
         prime_field::<FDP192m237>(&mut out, &mut rng, th);
         prime_field::<FDP25519>(&mut out, &mut rng, th);
         prime_field::<FDSecp256k1>(&mut out, &mut rng, th);
-        prime_field::<FHSecp256k1>(&mut out, &mut rng, th);
-        prime_field::<FDBls381Fr>(&mut out, &mut rng, th);
-        prime_field::<FDSpare5>(&mut out, &mut rng, th);
+        if th { prime_field::<FHSecp256k1>(&mut out, &mut rng, th); }
+        if th { prime_field::<FDBls381Fr>(&mut out, &mut rng, th); }
+        if th { prime_field::<FDSpare5>(&mut out, &mut rng, th); }
         prime_field::<FDFull5>(&mut out, &mut rng, th);
-        prime_field::<FDBls381Fq>(&mut out, &mut rng, th);
+        if th { prime_field::<FDBls381Fq>(&mut out, &mut rng, th); }
         prime_field::<FDSecp384r1>(&mut out, &mut rng, th);
         prime_field::<FDFull13>(&mut out, &mut rng, th);
         prime_field::<bls12_381::Fq>(&mut out, &mut rng, th);
         prime_field::<bls12_381::Fr>(&mut out, &mut rng, th);
         prime_field::<secp256k1::Fq>(&mut out, &mut rng, th);
-        prime_field::<secp256k1::Fr>(&mut out, &mut rng, th);
+        if th { prime_field::<secp256k1::Fr>(&mut out, &mut rng, th); }
         prime_field::<mnt4_753::Fq>(&mut out, &mut rng, th);
-        prime_field::<mnt6_753::Fq>(&mut out, &mut rng, th);
+        if th { prime_field::<mnt6_753::Fq>(&mut out, &mut rng, th); }
     }
     if want("ext") {
         ext_field::<bls12_381::Fq2>(&mut out, &mut rng, "2", th);
@@ -272,10 +241,10 @@ fn main() {
         toy_te::<TE257A>(&mut out, "TE257A", 236, th);
     }
     if want("ship") {
-        ship_sw::<bls12_381::g1::Config>(&mut out, &mut rng, th);
-        ship_sw::<secp256k1::Config>(&mut out, &mut rng, th);
-        ship_sw::<mnt4_753::g1::Config>(&mut out, &mut rng, th);
-        ship_te::<ed_on_bls12_381::EdwardsConfig>(&mut out, &mut rng, th);
+        ship_sw::<bls12_381::g1::Config>(&mut out, &mut rng, if th { 40 } else { 3 });
+        ship_sw::<secp256k1::Config>(&mut out, &mut rng, if th { 40 } else { 3 });
+        ship_sw::<mnt4_753::g1::Config>(&mut out, &mut rng, if th { 10 } else { 1 });
+        ship_te::<ed_on_bls12_381::EdwardsConfig>(&mut out, &mut rng, if th { 40 } else { 3 });
     }
     out.flush();
     eprintln!("c09: {} lines", out.count);
